@@ -28,18 +28,29 @@ def run_one(pid: str, tier: str, seed: int) -> int:
         print(f"{pid}: no check implemented", flush=True)
         return 2
     # 1. gen
+    translator_error = None
     try:
         gen = gen_mod.gen_all()
     except gen_mod.GenError as e:
-        rep.violation("translator-failed", {"obligation": "Gen/*.v could not be regenerated from /repo", "error": str(e)},
-                      no_input=True)
-        return rep.finish("proof", {"evaluations": 0, "distinct_nontrivial": 0, "explanation": "translator failed"}, [])
+        # fail closed - but first look for a concrete failing input: keep the last translation of the part that cannot be
+        # translated any more (the model of the code as it was) and run the whole check with it; whatever it finds, the run ends
+        # in a violation, with the translator's message as the obligation that no longer checks
+        translator_error = str(e)
+        try:
+            gen = gen_mod.gen_all(tolerant=True)
+        except Exception as e2:  # noqa: BLE001
+            rep.violation("translator-failed", {"obligation": "Gen/*.v could not be regenerated from /repo", "error": str(e2)},
+                          no_input=True)
+            return rep.finish("proof", {"evaluations": 0, "distinct_nontrivial": 0, "explanation": "translator failed"}, [])
     # 2. prove
     forb = common.scan_forbidden()
     proofs = common.build_props(pid)
     if forb:
         proofs["ok"] = False
         proofs["failed"] = "forbidden construct: " + forb[0]
+    if translator_error is not None:
+        proofs["ok"] = False
+        proofs["failed"] = "translator: Gen/*.v could not be regenerated from /repo (" + translator_error + "); the model was built from the last successful translation"
     if not common.BIN.exists():
         print("model driver missing after build:\n" + proofs["log"][-3000:], flush=True)
         rep.violation("build-failed", {"log": proofs["log"][-3000:]}, no_input=True)
@@ -72,6 +83,11 @@ def run_one(pid: str, tier: str, seed: int) -> int:
         return 3
     finally:
         shutil.rmtree(common.WORK, ignore_errors=True)
+    if translator_error is not None and rc == 0:
+        # never quiet: the tie between model and code is broken even if nothing else noticed
+        rep.violation("translator-failed", {"obligation": "Gen/*.v could not be regenerated from /repo", "error": translator_error},
+                      no_input=True)
+        rc = 1
     status = "ok" if rc == 0 else "VIOLATIONS"
     print(f"{pid} [{tier}] {status}: proofs {len(proofs['discharged'])}/{len(proofs['obligations'])}, "
           f"{time.time() - rep.t0:.1f}s", flush=True)
